@@ -53,6 +53,25 @@ def reference(plan, states):
     return frames, errors, 'NoHostAvailable'
 
 
+def pools_may_change(plan, states):
+    """The per-host states are static only as long as the driver does not re-create pools.  Using a connection that was
+    closed under its pool makes the driver mark that host down, and once the executor has run that task (that is after
+    a later attempt was answered) Session.update_created_pools() re-creates every missing or shut-down pool of the
+    other hosts: a host the reference calls unusable then has a usable pool.  Such plans are not judged."""
+    closed_seen = answered_after = False
+    for h in plan:
+        s = states[h]
+        if s == 'healthy':
+            return False
+        if answered_after and s in ('missing', 'shutdown'):
+            return True
+        if s == 'closed':
+            closed_seen = True
+        elif s == 'retry_next' and closed_seen:
+            answered_after = True
+    return False
+
+
 def setup_states(st, addrs, states):
     """Put the pool of every host into its state through the pool/connection API; -> {address: Host}"""
     by = dict((h.endpoint.address, h) for h in st.cluster.metadata.all_hosts())
@@ -123,6 +142,9 @@ def run_chunk(cases):
         addrs = ['10.0.0.%d' % (i + 1) for i in range(n)]
         states = dict(zip(addrs, svec))
         eff_plan = [target] if target else list(plan)
+        if pools_may_change(eff_plan, states):
+            part.count('skipped_pool_renewal')
+            continue
         ref = reference(eff_plan, states)
         part.count('evaluations')
         got = play(n, plan, states, target, id0)
@@ -478,7 +500,7 @@ def run(ctx):
     n = ctx.nproc * 4
     for part in ctx.pmap(run_chunk, [cs[i::n] for i in range(n) if cs[i::n]]):
         ctx.merge(part)
-    ctx.count('states', len(cs) + nexec)
+    ctx.count('states', ctx.counters.get('evaluations', 0) + nexec)
     ctx.count('transitions', ctx.counters.get('evaluations', 0) + ctx.counters.get('sched_steps', 0))
     ctx.count('executions', nexec)
     ctx.cov['rule'] = ('plans x per-host states x targeting enumerated completely (evaluations); speculative layer: BFS states = event histories '
@@ -487,6 +509,8 @@ def run(ctx):
                        'schedule with at least one non-default choice; single-threaded cases: non-trivial = at least two different host '
                        'states' % bfs_states)
     ctx.cov['exhaustive'] = True
+    ctx.assume('plans in which a connection closed under its pool is used, a later attempt is answered and a host with a missing or shut-down '
+               'pool follows are not judged (the driver re-creates such pools once the closed host was marked down); counted as skipped_pool_renewal')
     ctx.assume('speculative layer: the client timeout does not fire (timers are fired only while speculative executions remain)')
     ctx.assume('schedule layer: one reactor thread and one executor worker; connection and pool code runs atomically between its lock operations')
 
